@@ -62,6 +62,7 @@ Proof.
   intros g H. unfold check_graph in H. repeat rewrite andb_true_iff in H.
   apply nodup_b_iff. tauto.
 Qed.
+Print Assumptions C12_checker_nodes_distinct.
 
 Theorem C12_checker_edges_allowed : forall g e,
   check_graph nx ny E S g = true -> In e (edges g) ->
@@ -75,6 +76,7 @@ Proof.
   destruct (nth_error (nodes g) (snd e)) as [t|]; [|discriminate].
   apply andb_true_iff in Hed. exists s, t. tauto.
 Qed.
+Print Assumptions C12_checker_edges_allowed.
 
 Theorem C12_checker_input_complete : forall g u s x',
   check_graph nx ny E S g = true -> nth_error (nodes g) u = Some s -> x' < nx ->
@@ -129,11 +131,13 @@ Theorem C12_init_forall_forall : forall l,
   NoDup l /\ forall s, In s l <->
     (fst s < nx /\ snd s < ny) /\ EI (fst s) = true /\ SI (fst s) (snd s) = true.
 Proof. exact (init_AA_spec nx ny EI SI). Qed.
+Print Assumptions C12_init_forall_forall.
 
 Theorem C12_init_exists_exists : forall l,
   init_EE ny SI pick pickx = Some l ->
   exists x y, l = [(x, y)] /\ x < nx /\ y < ny /\ SI x y = true.
 Proof. exact (init_EE_spec nx ny EI SI pick pickx pick_sound pickx_sound). Qed.
+Print Assumptions C12_init_exists_exists.
 
 Theorem C12_init_forall_exists : forall l,
   init_AE nx EI SI pick = Some l ->
@@ -212,6 +216,7 @@ Theorem C12_abstract_model_is_order_instance :
   forall nx ny E S pick fuel g,
   run_o ny E S pick (fun _ => seq 0 nx) fuel g = run nx ny E S pick fuel g.
 Proof. exact run_o_seq. Qed.
+Print Assumptions C12_abstract_model_is_order_instance.
 
 Section C12translated.
 Variables nx ny : nat.
